@@ -177,7 +177,7 @@ int main(int argc, char **argv)
 			h_puthex(buf, (int) a); printf("\n");
 			free(buf); free(raw);
 		} else if (!mx && (H_IS(0, "dataid") || H_IS(0, "size") || H_IS(0, "feed") || H_IS(0, "cor")
-				   || H_IS(0, "corall") || H_IS(0, "reset") || H_IS(0, "state") || H_IS(0, "feedraw") || H_IS(0, "feedraw2"))) {
+				   || H_IS(0, "corall") || H_IS(0, "reset") || H_IS(0, "state") || H_IS(0, "feedraw") || H_IS(0, "feedraw2") || H_IS(0, "corraw"))) {
 			printf("rej nomux\n");
 		} else if (H_IS(0, "dataid")) {
 			if (h_ntok != 2 || !NAT(1, a)) { printf("rej parse\n"); continue; }
@@ -258,6 +258,43 @@ int main(int argc, char **argv)
 			if (!out_calls) printf("-");
 			for (i = 0; i < out_calls && i < 4096; ++i) printf("%s%u", i ? "," : "", out_sizes[i]);
 			printf(" "); h_puthex(out_buf, (int) out_len);
+			emit_demux(out_buf, out_len);
+			end_line();
+			free(raw); free(s);
+		} else if (H_IS(0, "corraw")) {
+			/* corraw <pts> <mask> <s1,s2,..> <offset> <samples_per_line> <start0> <count0> <start1> <count1> <seed> <interlaced> <rawnull> <n> lines
+			   vbi_dvb_mux_cor with raw / sp, called until *sliced_left == 0 or failure, buffer sizes cycling (round 5);
+			   raw frame as for feedraw */
+			vbi_sliced *s; const vbi_sliced *spt; unsigned s_left; vbi_bool ok = TRUE; unsigned calls = 0;
+			long long sizes[64]; int nsizes = 0; char *t, *save;
+			long long off, spl, s0, c0, s1, c1, seed, il, rnull; vbi_sampling_par sp; uint8_t *raw; size_t rn, k;
+			if (h_ntok < 14 || !NUM(1, a) || !NAT(2, b) || !NAT(4, off) || !NAT(5, spl) || !NAT(6, s0) || !NAT(7, c0)
+			    || !NAT(8, s1) || !NAT(9, c1) || !NAT(10, seed) || !NAT(11, il) || !NAT(12, rnull) || il > 1 || rnull > 1
+			    || !NAT(13, n) || spl > 4096 || c0 > 64 || c1 > 64 || off > 1000000 || s0 > 1000000 || s1 > 1000000) { printf("rej parse\n"); continue; }
+			for (t = strtok_r(h_tok[3], ",", &save); t && nsizes < 64; t = strtok_r(NULL, ",", &save)) {
+				if (!h_int(t, &sizes[nsizes]) || sizes[nsizes] < 0 || sizes[nsizes] > (1 << 20)) { nsizes = -1; break; }
+				++nsizes;
+			}
+			if (nsizes < 1 || !(s = parse_lines(14, n))) { printf("rej parse\n"); continue; }
+			memset(&sp, 0, sizeof sp);
+			sp.scanning = 625; sp.sampling_format = VBI_PIXFMT_YUV420; sp.sampling_rate = 13500000;
+			sp.bytes_per_line = (int) spl; sp.offset = (int) off; sp.start[0] = (int) s0; sp.count[0] = (int) c0;
+			sp.start[1] = (int) s1; sp.count[1] = (int) c1; sp.interlaced = (vbi_bool) il; sp.synchronous = TRUE;
+			rn = (size_t)(c0 + c1) * (size_t) spl;
+			raw = malloc(rn ? rn : 1);
+			for (k = 0; k < rn; ++k) raw[k] = (uint8_t)(seed + (long long) k * 7);
+			out_len = 0; spt = s; s_left = (unsigned) n;
+			do {
+				unsigned bl = (unsigned) sizes[calls % nsizes], left = bl;
+				uint8_t *buf = malloc(bl ? bl : 1), *p = buf;
+				ok = vbi_dvb_mux_cor(mx, &p, &left, &spt, &s_left, (vbi_service_set)(uint32_t) b, rnull ? NULL : raw, &sp, (int64_t) a);
+				++calls;
+				if ((size_t)(p - buf) != bl - left) { printf("ok INCONSISTENT-buffer-accounting\n"); }
+				if (out_len + (size_t)(p - buf) <= MAXOUT) { memcpy(out_buf + out_len, buf, (size_t)(p - buf)); out_len += (size_t)(p - buf); }
+				free(buf);
+			} while (ok && s_left > 0 && calls < 200000);
+			printf("ok %s %u %u %ld ", ok ? "true" : "false", calls, s_left, (long)(spt - s));
+			h_puthex(out_buf, (int) out_len);
 			emit_demux(out_buf, out_len);
 			end_line();
 			free(raw); free(s);
